@@ -24,6 +24,8 @@ type goTr struct {
 	fpExact  bool // fp mode: float equality is exact; real mode: tolerance
 	subst    map[string]string // predicate parameters -> go expr
 	depth    int
+	pkg      *types.Package
+	ptrBound map[string]bool
 }
 
 type notExec string
@@ -47,6 +49,9 @@ func (t *goTr) tr(x *SExpr) string {
 			return s
 		}
 		if t.bound[x.Name] {
+			if t.inOld && t.ptrBound[x.Name] {
+				return "verifOldObj(" + x.Name + ")"
+			}
 			return x.Name
 		}
 		if t.params[x.Name] {
@@ -206,6 +211,12 @@ func (t *goTr) call(x *SExpr) string {
 		n.bound = map[string]bool{}
 		n.params = map[string]bool{}
 		n.results = map[string]string{}
+		n.ptrBound = map[string]bool{}
+		if pd.Pkg != "" {
+			if p := t.e.Pkgs[pd.Pkg]; p != nil {
+				n.pkg = p.Types
+			}
+		}
 		var binds []string
 		for i, p := range pd.Params {
 			v := fmt.Sprintf("p%d_%s", t.depth, p.Name)
@@ -243,6 +254,37 @@ func (t *goTr) quant(x *SExpr) string {
 		nx("quantifier without a range guard")
 	}
 	names := map[string]bool{}
+	if len(x.Binders) == 1 && x.Binders[0].Type != nil && x.Binders[0].Type.Ptr == 1 && !x.Binders[0].Type.Slice {
+		// quantifier over all objects of a pointer type: ranges over the objects known to the replay
+		b := x.Binders[0]
+		sc := &Scope{vc: &VC{e: t.e}, pkg: t.pkg}
+		var ty types.Type
+		func() {
+			defer func() {
+				if r := recover(); r != nil {
+					nx("unknown type %s", b.Type)
+				}
+			}()
+			ty = sc.resolveType(b.Type)
+		}()
+		tn := types.TypeString(ty, func(p *types.Package) string { return p.Name() })
+		n := *t
+		n.bound = map[string]bool{}
+		n.ptrBound = map[string]bool{}
+		for k := range t.bound {
+			n.bound[k] = true
+		}
+		for k := range t.ptrBound {
+			n.ptrBound[k] = true
+		}
+		n.bound[b.Name] = true
+		n.ptrBound[b.Name] = true
+		inner := n.tr(x.Args[0])
+		if x.Op == "forall" {
+			return "func() bool { for _, " + b.Name + " := range verifObjectsOf(" + fmt.Sprintf("%q", tn) + ") { if !verifB(" + inner + ") { return false } }; return true }()"
+		}
+		return "func() bool { for _, " + b.Name + " := range verifObjectsOf(" + fmt.Sprintf("%q", tn) + ") { if verifB(" + inner + ") { return true } }; return false }()"
+	}
 	for _, b := range x.Binders {
 		if b.Type != nil && b.Type.Name != "int" {
 			nx("quantifier over %s", b.Type)
@@ -313,11 +355,26 @@ func (t *goTr) quant(x *SExpr) string {
 // goOracle renders the ensures clauses of fc as a Go function body that appends the
 // labels of violated clauses to `fails`. Returns the statements and the skipped clauses.
 func (e *Engine) goOracle(fc *FuncContract, fn *ssa.Function) (stmts string, checked int, skipped []string) {
+	return e.goClauses(fc, fn, false)
+}
+
+// goRequires renders the executable requires clauses (checked on the materialised input before the call).
+func (e *Engine) goRequires(fc *FuncContract, fn *ssa.Function) (stmts string, checked int, skipped []string) {
+	return e.goClauses(fc, fn, true)
+}
+
+func (e *Engine) goClauses(fc *FuncContract, fn *ssa.Function, pre bool) (stmts string, checked int, skipped []string) {
 	if fc == nil {
 		return "", 0, nil
 	}
 	var sb strings.Builder
-	for i, en := range fc.Ensures {
+	clauses := fc.Ensures
+	kind := "ensures"
+	if pre {
+		clauses = fc.Requires
+		kind = "requires"
+	}
+	for i, en := range clauses {
 		label := clauseLabel(en, i)
 		src, err := func() (s string, err error) {
 			defer func() {
@@ -329,7 +386,7 @@ func (e *Engine) goOracle(fc *FuncContract, fn *ssa.Function) (stmts string, che
 					panic(r)
 				}
 			}()
-			t := &goTr{e: e, params: map[string]bool{}, results: map[string]string{}, bound: map[string]bool{}, fpExact: fc.Mode == "fp", subst: map[string]string{}}
+			t := &goTr{e: e, params: map[string]bool{}, results: map[string]string{}, bound: map[string]bool{}, fpExact: fc.Mode == "fp", subst: map[string]string{}, pkg: fn.Pkg.Pkg, ptrBound: map[string]bool{}}
 			for _, p := range fn.Params {
 				t.params[p.Name()] = true
 			}
@@ -350,7 +407,7 @@ func (e *Engine) goOracle(fc *FuncContract, fn *ssa.Function) (stmts string, che
 			continue
 		}
 		checked++
-		fmt.Fprintf(&sb, "\tif !verifB(%s) {\n\t\tfails = append(fails, %q)\n\t}\n", src, "ensures ["+label+"] "+en.Src)
+		fmt.Fprintf(&sb, "\tif !verifB(%s) {\n\t\tfails = append(fails, %q)\n\t}\n", src, kind+" ["+label+"] "+en.Src)
 	}
 	return sb.String(), checked, skipped
 }
@@ -640,6 +697,79 @@ var verifCopyOf = map[uintptr]uintptr{} // original -> copy
 var verifOrigOf = map[uintptr]uintptr{} // copy -> original
 var verifKeep []interface{}
 var verifPreExisting = map[uintptr]bool{}
+
+var verifByType = map[string][]interface{}{}
+var verifSeenObj = map[uintptr]bool{}
+
+func verifObjectsOf(typ string) []interface{} { return verifByType[typ] }
+
+func verifNote(v reflect.Value) {
+	if v.Kind() != reflect.Ptr || v.IsNil() || verifSeenObj[v.Pointer()] {
+		return
+	}
+	if _, isCopy := verifOrigOf[v.Pointer()]; isCopy {
+		return
+	}
+	verifSeenObj[v.Pointer()] = true
+	verifByType[v.Type().String()] = append(verifByType[v.Type().String()], v.Interface())
+}
+
+// verifRegister walks a value and records every reachable pointer for quantifiers over object types.
+func verifRegister(x interface{}) {
+	if x == nil {
+		return
+	}
+	verifWalk(reflect.ValueOf(x), map[uintptr]bool{})
+}
+
+func verifWalk(v reflect.Value, seen map[uintptr]bool) {
+	v = verifReadable(v)
+	switch v.Kind() {
+	case reflect.Ptr:
+		if v.IsNil() || seen[v.Pointer()] {
+			return
+		}
+		seen[v.Pointer()] = true
+		if v.Type().Elem().Kind() == reflect.Struct {
+			verifNote(v)
+		}
+		verifWalk(v.Elem(), seen)
+	case reflect.Interface:
+		if !v.IsNil() {
+			verifWalk(v.Elem(), seen)
+		}
+	case reflect.Slice, reflect.Array:
+		for i := 0; i < v.Len(); i++ {
+			verifWalk(v.Index(i), seen)
+		}
+	case reflect.Struct:
+		if !v.CanAddr() {
+			n := reflect.New(v.Type()).Elem()
+			n.Set(v)
+			v = n
+		}
+		for i := 0; i < v.NumField(); i++ {
+			verifWalk(v.Field(i), seen)
+		}
+	case reflect.Map:
+		it := v.MapRange()
+		for it.Next() {
+			verifWalk(it.Value(), seen)
+		}
+	}
+}
+
+// verifOldObj maps an object to its pre-state snapshot (objects created later have none).
+func verifOldObj(x interface{}) interface{} {
+	v := reflect.ValueOf(x)
+	if v.Kind() != reflect.Ptr || v.IsNil() {
+		return x
+	}
+	if c, ok := verifCopyOf[v.Pointer()]; ok {
+		return reflect.NewAt(v.Type().Elem(), unsafe.Pointer(c)).Interface()
+	}
+	return x
+}
 
 func verifCanon(p uintptr) uintptr {
 	if o, ok := verifOrigOf[p]; ok {
